@@ -22,7 +22,7 @@ BODY = """import os as _os
 with open(_os.environ["C15_SENTINEL"], "a") as _f:
     _f.write(__name__ + "\\n")
 del _f
-{fault}
+{hostile}{fault}
 X = 1
 def f(a, b=2):
     "doc"
@@ -30,6 +30,8 @@ def f(a, b=2):
 class K:
     y = 3
 """
+# hostile variant: the body mutates the import path it sees and rebinds nothing (the replacement list is thrown away by sys_path)
+HOSTILE = 'import sys as _s\n_s.path.insert(0, "/c15-bogus-entry")\n_s.path.append("/c15-bogus-tail")\n'
 FAULT_CODE = {
     "none": "",
     "raises": 'raise RuntimeError("c15 planned fault")',
@@ -52,6 +54,9 @@ static const char *CODE =
   "import os as _os, json as _json\n"
   "with open(_os.environ['C15_SENTINEL'], 'a') as _f:\n"
   "    _f.write(__name__ + '\\n')\n"
+  "if _os.environ.get('C15_HOSTILE') == '1':\n"
+  "    import sys as _s\n"
+  "    _s.path.insert(0, '/c15-bogus-entry')\n"
   "_flt = _json.loads(_os.environ.get('C15_CFAULTS', '{}')).get(__name__, 'none')\n"
   "if _flt == 'raises':\n"
   "    raise RuntimeError('c15 planned fault')\n"
@@ -116,8 +121,9 @@ def model_id(cfg: dict, name: str) -> str | None:
 
 
 class Builder:
-    def __init__(self, cfg: dict, root: str, compiled_as: str, ext_so: str | None):
+    def __init__(self, cfg: dict, root: str, compiled_as: str, ext_so: str | None, hostile: bool = False):
         self.cfg = cfg
+        self.hostile = hostile
         self.root = root
         self.sp = os.path.join(root, "sp")
         self.sentinel = os.path.join(root, "sentinel")
@@ -132,7 +138,7 @@ class Builder:
             fh.write(text)
 
     def _code(self, m: str, extra: str = "") -> str:
-        return BODY.format(fault=FAULT_CODE[self.cfg["fault"][m]]) + extra
+        return BODY.format(fault=FAULT_CODE[self.cfg["fault"][m]], hostile=HOSTILE if self.hostile else "") + extra
 
     def _module(self, m: str, kind: str, directory: str, stem: str, extra: str = ""):
         """Write module `m` of `kind` as <directory>/<stem>.<suffix>."""
